@@ -157,29 +157,39 @@ def judge_reserve(line):
     ops, outs = ops.split(), outs.split()
     if len(ops) != len(outs):
         return (0, "output count")
+    deliv = []   # outstanding deliveries: (size, which windows they charged)
     for i, (o, r) in enumerate(zip(ops, outs)):
         b, wl = r.split(":")
         got = [parse_w(x) for x in wl.split(";") if x]
         size = int(o[1:]) % W32
         if o[0] == "P":
+            # every window of the list is charged (a window without limits admits everything); a loop that leaves
+            # windows without limits alone would satisfy the window clauses just as well
             active = [(w[0] != 0 or w[2] != 0) for w in ws]
-            if not any(a and wraps(w, 1, size) for a, w in zip(active, ws)):
-                ok = all(admits(w, 1, size) for a, w in zip(active, ws) if a)
+            if not any(wraps(w, 1, size) for w in ws):
+                ok = all(admits(w, 1, size) for w in ws)
                 if (b == "t") != ok:
-                    return (i, "pop %s although the active windows of %s %s a body of %d" %
+                    return (i, "pop %s although the windows %s %s a body of %d" %
                             ("allowed" if b == "t" else "refused", ws, "do not admit" if not ok else "admit", size))
-                exp = [(w[0], w[1] + 1, w[2], w[3] + size) if a else w for a, w in zip(active, ws)] if ok else ws
-                # a window without limits (inactive) is not constrained by the property: the code leaves it alone,
-                # charging it exactly would be equally fine
-                exp2 = [(w[0], w[1] + 1, w[2], w[3] + size) for w in ws] if ok else ws
+                exp = [(w[0], w[1] + 1, w[2], w[3] + size) for w in ws] if ok else ws
+                exp2 = [(w[0], w[1] + 1, w[2], w[3] + size) if a else w for a, w in zip(active, ws)] if ok else ws
                 if got != exp and got != exp2:
                     return (i, "%s pop of a body of %d changed the windows %s -> %s, expected %s (all or nothing)" %
                             ("allowed" if ok else "refused", size, ws, got, exp))
-            # else: some active window would wrap - outside the hypothesis (known finding F32)
+            # else: some window would wrap - outside the hypothesis (known finding F32)
         else:
-            exp = [dec_expected(w, 1, size) for w in ws]
+            # "settling a message frees exactly its own share": each window gives back (1, size) if this delivery
+            # charged it and is left alone if it did not
+            k = next((j for j, d in enumerate(deliv) if d[0] == size), None)
+            if k is None:
+                exp = [dec_expected(w, 1, size) for w in ws]
+            else:
+                flags = deliv.pop(k)[1]
+                exp = [dec_expected(w, 1, size) if f else w for f, w in zip(flags, ws)]
             if got != exp:
-                return (i, "settle of %d on %s gave %s, expected %s" % (size, ws, got, exp))
+                return (i, "settle of a delivery of %d bytes on %s gave %s, expected %s (every window gives back exactly what this delivery charged)" % (size, ws, got, exp))
+        if o[0] == "P" and b == "t":
+            deliv.append((size, [g != w for g, w in zip(got, ws)]))
         ws = got
     return None
 
